@@ -214,6 +214,18 @@ theorem src_run_documented (data : Bytes) (ops : List Op) :
   · have hp : a.1.pos = ((Reader.new data).runOut ops).1.pos := by rw [← habs]; rfl
     rw [hp]; exact hpos
 
+/-- **exhausted reads of the translated reader**: with nothing remaining (end of data, or end of the chunk in chunked mode)
+    every translated read returns 0 / the empty value and leaves all five fields as they were -/
+theorem src_exhausted_reads (r : Reader) (h : Reader.Inv r) (h0 : r.remaining = 0) (n : Nat) (l : Int) (hl : 0 ≤ l) (p : Bool) :
+    srcStep (rview r) .getByte = .ok (rview r, .int 0) ∧ srcStep (rview r) (.getBytes n) = .ok (rview r, .bytes []) ∧
+    srcStep (rview r) .getChar = .ok (rview r, .int 0) ∧ srcStep (rview r) .getShort = .ok (rview r, .int 0) ∧
+    srcStep (rview r) .getThree = .ok (rview r, .int 0) ∧ srcStep (rview r) .getInt = .ok (rview r, .int 0) ∧
+    srcStep (rview r) .getString = .ok (rview r, .str []) ∧ srcStep (rview r) .getEncodedString = .ok (rview r, .str []) ∧
+    srcStep (rview r) (.getFixedString l p) = .ok (rview r, .str []) ∧
+    srcStep (rview r) (.getFixedEncodedString l p) = .ok (rview r, .str []) := by
+  obtain ⟨e1, e2, e3, e4, e5, e6, e7, e8, e9, e10⟩ := Reader.exhausted_reads r h h0 n l hl p
+  simp only [srcStep_eq r h, e1, e2, e3, e4, e5, e6, e7, e8, e9, e10, stepView, toS, ofBytes, List.map_nil, and_self]
+
 /-- non-vacuity: a concrete chunked history through the translated methods -/
 example : (srcRunOut (rview (Reader.new [2, 3, 255, 4])) [.setChunked true, .getShort, .getChar, .nextChunk, .getChar]).2
     = [.ok .none, .ok (.int 507), .ok (.int 0), .ok .none, .ok (.int 3)] := by decide
